@@ -418,12 +418,30 @@ class Machine:
 
     def c_transform(self, kind, i, rots):
         e = self.pick(i, (kind,), small=True)
-        rs = [self.pick(j, (rk,), small=True).obj for rk, j in rots]
+        # steps: [rot kind, idx] rotates the yielded matrix; ['freeze', 0] freezes it (a copy operation on the block's
+        # matrix, checked like any other copy); ['set', comp, number] assigns one of its entries.
+        steps = []
+        for st_ in rots:
+            if st_[0] == 'freeze':
+                steps.append(('freeze', None))
+            elif st_[0] == 'set':
+                steps.append(('set', (st_[1], self.num(st_[2]))))
+            else:
+                steps.append(('rot', self.pick(st_[1], (st_[0],), small=True).obj))
         self.mark_rotation()
         self.ctx.label('transform:' + e.kind)
+        mutated = None
         with e.obj.transform() as m:
-            for r in rs:
-                m @= r
+            for what, arg in steps:
+                if what == 'rot':
+                    m @= arg
+                    mutated = 'imatmul'
+                elif what == 'set':
+                    m[arg[0] % 3, (arg[0] // 3) % 3] = arg[1]
+                    mutated = 'setitem'
+                else:
+                    self._do_copy(None, 'freeze', obj=m, kind='Matrix')
+                    self.ctx.label('transform_block:freeze' + (f'_after_{mutated}' if mutated else ''))
         return e
 
     def c_localise(self, i, j, rk, k, org_tuple):
@@ -461,8 +479,13 @@ class Machine:
 
     # copies ------------------------------------------------------------------
     def c_copy(self, how, kind, i):
-        e = self.pick(i, (kind,))
-        o, k = e.obj, e.kind
+        self._do_copy(self.pick(i, (kind,)), how)
+        return None
+
+    def _do_copy(self, e, how, obj=None, kind=None):
+        """One copy operation of ``e`` (or of a loose object); in ``copies`` mode the result must equal the source as
+        it is AT THE TIME OF THIS CALL - checked at every call, also for repeated copies of one source."""
+        o, k = (e.obj, e.kind) if e is not None else (obj, kind)
         sm = self.sm
         want_kind = k
         if how == 'freeze_thaw':
@@ -503,7 +526,80 @@ class Machine:
                 for other in self.pool:
                     ctx.check(other.obj is not res, 'copy_distinct', f'{how} of a {k} returned an already pooled mutable object')
         self.add(res, clause_ctx='copy ' + how)
-        return None
+        return how
+
+    # copy / mutate / copy again on ONE source object ----------------------------
+    MUTATORS = {
+        'Vec': ('setattr', 'setitem', 'iadd', 'isub', 'imul', 'idiv', 'imatmul', 'localise', 'minmax', 'transform'),
+        'Angle': ('setattr', 'setitem', 'imul', 'imatmul', 'transform'),
+        'Matrix': ('setitem', 'imatmul'),
+    }
+
+    def _mutate(self, e, mut, comp, n, j):
+        """Apply one in-place mutator of the object's public API; returns its name."""
+        o, k = e.obj, e.kind
+        names = self.MUTATORS[k]
+        name = names[mut % len(names)]
+        x = self.num(n)
+        if name == 'setattr':
+            setattr(o, ('xyz' if k == 'Vec' else ('pitch', 'yaw', 'roll'))[comp % 3], x)
+        elif name == 'setitem':
+            if k == 'Matrix':
+                o[comp % 3, (comp // 3) % 3] = x
+            elif k == 'Vec':
+                o[('x', 'y', 'z', 0, 1, 2)[comp % 6]] = x
+            else:
+                o[('pitch', 'yaw', 'roll', 0, 1, 2, 'p', 'y', 'r')[comp % 9]] = x
+        elif name in ('iadd', 'isub', 'imul', 'idiv'):
+            if max(abs(c) for c in comps(o, k)) > BIG:
+                raise Skip('magnitude')
+            if name == 'idiv' and abs(x) < 1e-30:
+                raise Skip('zero_divisor')
+            if k == 'Vec' and name in ('iadd', 'isub') and comp % 2:
+                other = self.pick(j, VEC_K, small=True).obj
+                x = other if comp % 4 == 1 else (other.x, other.y, other.z)
+            res = {'iadd': operator.iadd, 'isub': operator.isub, 'imul': operator.imul, 'idiv': operator.itruediv}[name](o, x)
+            if res is not o:
+                raise AssertionError('harness: in-place operator of a mutable object rebinds')
+        elif name == 'imatmul':
+            if max(abs(c) for c in comps(o, k)) > BIG:
+                raise Skip('magnitude')
+            self.mark_rotation()
+            res = operator.imatmul(o, self.pick(j, ROT_K, small=True).obj)
+            if res is not o:      # C04.inplace owns that clause; here the source simply was not mutated
+                self.add(res, clause_ctx='@=')
+        elif name == 'localise':
+            if max(abs(c) for c in comps(o, k)) > BIG:
+                raise Skip('magnitude')
+            o.localise((x, 0.0, -x), self.pick(j, ROT_K, small=True).obj)
+        elif name == 'minmax':
+            (o.max if comp % 2 else o.min)(self.pick(j, VEC_K).obj)
+        elif name == 'transform':
+            if max(abs(c) for c in comps(o, k)) > BIG:
+                raise Skip('magnitude')
+            self.mark_rotation()
+            r = self.pick(j, ROT_K, small=True).obj
+            with o.transform() as m:
+                m @= r
+        else:
+            raise AssertionError(name)
+        return name
+
+    def c_cycle(self, kind, i, how, rounds):
+        """copy, then (mutate the same source in place, copy it again) x rounds; equality checked at every copy."""
+        e = self.pick(i, (kind,))
+        self._do_copy(e, how)
+        for mut, comp, n, j, how2 in rounds:
+            try:
+                name = self._mutate(e, mut, comp, n, j)
+            except Skip as sk:      # raised before anything was changed; earlier rounds did change e, so e stays the target
+                self.ctx.label('skip_round:' + str(sk))
+                break
+            if not all(math.isfinite(c) for c in comps(e.obj, e.kind)):
+                break       # invariant() retires it
+            done = self._do_copy(e, how2)
+            self.ctx.label(f'{done}_again_after_{name}', f'cycle:{kind}:{name}')
+        return e
 
     def c_fmt(self, n):
         """format_float on a number of the history (text mode checks it; otherwise just exercise it)."""
@@ -735,6 +831,17 @@ def cmd_any(num):
     def set_():
         return st.tuples(st.just('set'), st.sampled_from(MUT_K), IDX, SMALL, num, SMALL)
 
+    mut_copies = st.sampled_from(['freeze', 'freeze', 'copy', 'copy.copy', 'deepcopy', 'pickle2', 'pickle5', 'ctor_same', 'ctor_twin'])
+
+    def cycle():
+        rnd = st.tuples(SMALL, SMALL, num, IDX, mut_copies)
+        return st.tuples(st.just('cycle'), st.sampled_from(MUT_K + ('Matrix',)), IDX, mut_copies, st.lists(rnd, min_size=1, max_size=3))
+
+    def transform():
+        step = st.one_of(st.tuples(rk, IDX), st.tuples(rk, IDX), st.tuples(st.just('freeze'), st.just(0)),
+                         st.tuples(st.just('set'), SMALL, num))
+        return st.tuples(st.just('transform'), st.sampled_from(['Vec', 'Angle', 'Angle']), IDX, st.lists(step, min_size=0, max_size=4))
+
     # Hypothesis favours the first alternatives (zeroed / shrunk draws), so the commands that matter most come first and
     # the constructors (already covered by the history prefix) last.
     return st.one_of(
@@ -745,10 +852,8 @@ def cmd_any(num):
         st.tuples(st.just('amul'), ak, IDX, st.one_of(num, tiny_factor()), st.sampled_from(['mul', 'rmul', 'imul', 'imul'])),
         st.tuples(st.just('to_angle'), mk, IDX),
         st.tuples(st.just('to_angle'), mk, IDX),
-        st.tuples(st.just('transform'), st.sampled_from(['Vec', 'Angle', 'Angle']), IDX,
-                  st.lists(st.tuples(rk, IDX), min_size=0, max_size=3)),
-        st.tuples(st.just('transform'), st.sampled_from(['Vec', 'Angle', 'Angle']), IDX,
-                  st.lists(st.tuples(rk, IDX), min_size=0, max_size=3)),
+        transform(), transform(),
+        cycle(), cycle(), cycle(), cycle(),
         vop(), vop(),
         st.tuples(st.just('localise'), IDX, IDX, st.one_of(st.none(), rk), IDX, b),
         st.tuples(st.just('mat1'), st.sampled_from(['transpose', 'inverse']), mk, IDX),
@@ -833,10 +938,14 @@ def exec_fmt(desc, ctx):
 # ------------------------------------------------------------------ registration
 
 _OPS = ('op:vec', 'op:ang', 'op:mat', 'op:to_angle', 'op:vec_to_angle', 'op:ang_basis', 'op:dir', 'op:set', 'op:vop', 'op:unary',
-        'op:cross', 'op:amul', 'op:matmul', 'op:transform', 'op:localise', 'op:minmax', 'op:mat1', 'op:copy', 'op:fmt')
+        'op:cross', 'op:amul', 'op:matmul', 'op:transform', 'op:cycle', 'op:localise', 'op:minmax', 'op:mat1', 'op:copy', 'op:fmt')
 _MATMUL = tuple(f'{f}:{l}@{r}' for f in ('matmul', 'imatmul') for l in ALL_K + ('tuple',) for r in ROT_K)
 _COPIES = tuple(f'copy:{h}:{k}' for h in ('copy', 'copy.copy', 'deepcopy', 'pickle2', 'pickle5', 'ctor_same', 'ctor_twin') for k in ALL_K) \
     + tuple(f'copy:freeze:{k}' for k in MUT_K) + tuple(f'copy:thaw:{k}' for k in FROZEN_K)
+
+_CYCLES = ('freeze_again_after_setitem', 'freeze_again_after_imatmul', 'copy_again_after_setitem', 'deepcopy_again_after_setitem',
+           'pickle5_again_after_setitem', 'transform_block:freeze_after_setitem', 'transform_block:freeze_after_imatmul') \
+    + tuple(f'cycle:{k}:{m}' for k, ms in Machine.MUTATORS.items() for m in ms)
 
 SUBCHECKS = [
     Sub('range', exec_range, strategy=history_strategy, quick=8000, thorough=160000, quick_shards=8, floor=300,
@@ -844,7 +953,7 @@ SUBCHECKS = [
                          'amul:Angle:imul', 'set:Angle', 'ang_from_basis:Angle', 'ang_from_basis:FrozenAngle')
         + tuple(f'{f}:{l}@{r}' for f in ('matmul', 'imatmul') for l in ANG_K for r in ROT_K)),
     Sub('frozen', exec_frozen, strategy=history_strategy, quick=8000, thorough=160000, quick_shards=8, floor=300, must_hit=_OPS + _MATMUL),
-    Sub('copies', exec_copies, strategy=history_strategy, quick=8000, thorough=160000, quick_shards=8, floor=300, must_hit=_OPS + _COPIES),
+    Sub('copies', exec_copies, strategy=history_strategy, quick=8000, thorough=160000, quick_shards=8, floor=300, must_hit=_OPS + _COPIES + _CYCLES),
     Sub('text', exec_text, strategy=history_strategy_text, quick=5000, thorough=100000, quick_shards=8, floor=200,
         must_hit=_OPS + ('text:normal', 'text:big')),
     Sub('fmtfloat', exec_fmt, strategy=fmt_strategy, quick=16000, thorough=400000, floor=1000,
